@@ -25,13 +25,19 @@ def hx(b):
 def prepare(ctx, sch):
     """fresh flatcc -> generated headers; translate.  Sets sch.gdir, sch.entries or sch.terr."""
     sch.gdir = os.path.join(ctx.bdir, 'gen', sch.base); os.makedirs(sch.gdir, exist_ok=True)
-    fbs = os.path.join(sch.gdir, sch.base + '.fbs'); open(fbs, 'w').write(sch.text)
-    rc, out = ctx.gen(fbs, sch.gdir, opts=('-a', '--json'))
+    for name, txt in sch.files.items():
+        open(os.path.join(sch.gdir, name + '.fbs'), 'w').write(txt)
+    fbs = os.path.join(sch.gdir, sch.base + '.fbs')
+    rc, out = ctx.gen(fbs, sch.gdir, opts=('-a', '--json', '-r'))
     if rc != 0:
         sch.terr = 'flatcc rejected the schema: ' + out[-500:]
         return False
     try:
-        _, sch.entries = T3.translate(sch.text, open(os.path.join(sch.gdir, sch.base + '_json_parser.h')).read(), sch.base)
+        hdrs = {}
+        for name in sch.files:
+            hp = os.path.join(sch.gdir, name + '_json_parser.h')
+            if os.path.exists(hp): hdrs[name] = open(hp).read()
+        _, sch.entries = T3.translate(sch.text, hdrs, sch.base)
     except T3.TranslateError as e:
         sch.terr = str(e)
     return True
@@ -208,22 +214,20 @@ def field_tests(ctx, sch, rng, per_name, tests):
 
 
 def resolve_symbol(sch, tdecl, f, text):
-    """The property's qualification rules.  -> ('val', v) | ('err',)"""
+    """The property's qualification rules.  -> ('val', v) | ('err',)
+    A symbol has no dot, so the text splits at its LAST dot into a type name and a symbol.  Permitted: the bare symbol of the
+    field's own enum; Type.Symbol for an enum / union type of the owner table's namespace; Name.Space.Type.Symbol for any
+    type; in each case only types visible to the file that declares the table.  Local scope takes precedence."""
     k, info = U.field_kind(sch, tdecl, f)
     def syms(d): return dict((s, v) for s, v in d['syms'])
-    if k == 'enum' and text in syms(info): return ('val', syms(info)[text])
-    if '.' in text:
-        head, rest = text.split('.', 1)
-        for d in sch.enums():
-            if d['ns'] == tdecl['ns'] and d['name'] == head:
-                return ('val', syms(d)[rest]) if rest in syms(d) else ('err',)
-    best = None
-    for d in sch.enums():
-        q = '.'.join(d['ns'] + [d['name']]) + '.'
-        if text.startswith(q) and (best is None or len(q) > len(best[0])): best = (q, d)
-    if best:
-        rest = text[len(best[0]):]
-        return ('val', syms(best[1])[rest]) if rest in syms(best[1]) else ('err',)
+    if '.' not in text:
+        return ('val', syms(info)[text]) if k == 'enum' and text in syms(info) else ('err',)
+    q, sym = text.rsplit('.', 1)
+    vis = sch.visible_enums(tdecl)        # what the file declaring the table can see (itself and its includes)
+    for d in vis:
+        if d['ns'] == tdecl['ns'] and d['name'] == q and sym in syms(d): return ('val', syms(d)[sym])
+    for d in vis:
+        if '.'.join(d['ns'] + [d['name']]) == q and sym in syms(d): return ('val', syms(d)[sym])
     return ('err',)
 
 
@@ -254,6 +258,13 @@ def enum_tests(ctx, sch, rng, budget, tests):
             forms.append((x.decode() + '.' + s, 'type-nearmiss'))
     pairs = [(c, fm) for c in cands for fm in forms]
     if len(pairs) > budget: pairs = rng.sample(pairs, budget)
+    # always: the namespace-qualified symbols of enums whose qualified name is also a namespace (or that live in such a one)
+    qn = {id(e): '.'.join(e['ns'] + [e['name']]) for e in sch.enums()}
+    amb = [e for e in sch.enums() if any(o != qn[id(e)] and (o.startswith(qn[id(e)] + '.') or qn[id(e)].startswith(o + '.')) for o in qn.values())]
+    for e in amb:
+        vis_c = [c for c in cands if e in sch.visible_enums(c[1])]
+        if vis_c:
+            for sname, _ in e['syms'][:3]: pairs.append((vis_c[0], (qn[id(e)] + '.' + sname, 'ns')))
     for (fn, tdecl, f), (text, form) in pairs:
         hops = paths[T3.cname(tdecl)]
         k, info = U.field_kind(sch, tdecl, f)
@@ -355,6 +366,10 @@ def run(ctx):
     corpus = []
     for p in sorted(glob.glob(os.path.join(lib.ROOT, 'gen', 'c10_schemas', '*.fbs'))):
         corpus.append(U.Sch(os.path.basename(p)[:-4], open(p).read(), 'corpus'))
+    for d in sorted(glob.glob(os.path.join(lib.ROOT, 'gen', 'c10_schemas', 'multi', '*'))):
+        base = os.path.basename(d)
+        files = {os.path.basename(p)[:-4]: open(p).read() for p in sorted(glob.glob(os.path.join(d, '*.fbs')))}
+        corpus.append(U.Sch(base, T3.join_bundle(files, base), 'corpus'))
     for s in corpus: prepare(ctx, s)
     bad = [s for s in corpus if s.terr]
     if bad:
@@ -468,6 +483,11 @@ def run(ctx):
     # checker rejections without a concrete failing input
     fired_fns = failing_schemas
     for (s, e, m) in rejected:
+        if e.get('unlayered'):
+            # one trie over names of which one is a dotted prefix of another: `lookup` is ambiguous there and the checker
+            # never certifies it; whether some permitted spelling is rejected is decided by the targeted inputs above
+            ctx.notes.append('global scope trie of %s holds a qualified enum name that is also a namespace: not certifiable, tested only' % s.base)
+            continue
         if (s.base, e['fn'] if e['kind'] in ('table', 'struct') else 'enum') not in fired_fns:
             ctx.broken_obligation('extracted-check:%s:%s:%s' % (s.origin, e['kind'], m),
                                   {'schema': s.base, 'function': e['fn'], 'mode': m, 'diag': diag.get((s.base, e['fn'], m)), 'schema_fbs': s.text})
@@ -537,7 +557,7 @@ def model_stage(ctx, allsch, tests):
     for t, r in zip(et, r1):
         sch, (tdecl, f) = t['sch'], t['enum']
         if r.startswith('M '): t['model'] = 'E ' + r[2:]
-        loc = tries.get((sch.base, '%s_local_%sjson_parser_enum' % (sch.base, ''.join(x + '_' for x in tdecl['ns']))))
+        loc = tries.get((sch.base, '%s_local_%sjson_parser_enum' % (tdecl['file'], ''.join(x + '_' for x in tdecl['ns']))))
         q2.append(('scope', loc, model_input(t)))
     r2 = ask(q2)
 
@@ -551,23 +571,38 @@ def model_stage(ctx, allsch, tests):
         if 'model' in t: continue
         if r.startswith('M '):
             sch, (tdecl, f) = t['sch'], t['enum']
-            loc = tries[(sch.base, '%s_local_%sjson_parser_enum' % (sch.base, ''.join(x + '_' for x in tdecl['ns'])))]
+            loc = tries[(sch.base, '%s_local_%sjson_parser_enum' % (tdecl['file'], ''.join(x + '_' for x in tdecl['ns'])))]
             q3.append(follow(t, r, loc)); who3.append(t)
     for t, r in zip(who3, ask(q3)):
         t['model'] = ('E ' + r[2:]) if r.startswith('M ') else 'EERR'
-    q4, who4 = [], []
-    for t in et:
-        if 'model' in t: continue
-        q4.append(('scope', tries.get((t['sch'].base, t['sch'].base + '_global_json_parser_enum')), model_input(t))); who4.append(t)
-    r4 = ask(q4)
-    q5, who5 = [], []
-    for t, r in zip(who4, r4):
-        if r.startswith('M '):
-            q5.append(follow(t, r, tries[(t['sch'].base, t['sch'].base + '_global_json_parser_enum')])); who5.append(t)
-        else:
-            t['model'] = 'EERR'
-    for t, r in zip(who5, ask(q5)):
-        t['model'] = ('E ' + r[2:]) if r.startswith('M ') else 'EERR'
+    # global scope: one trie, or (when a qualified enum name is also a namespace) several layers tried in order
+    pending = [t for t in et if 'model' not in t]
+    layer = 0
+    while pending:
+        q4, who4, nxt = [], [], []
+        for t in pending:
+            g = t['enum'][0]['file'] + '_global_json_parser_enum'
+            ent = next((e for e in (t['sch'].entries or []) if e['fn'] == g), None)
+            nl = ent.get('layers') if ent else None
+            if nl:
+                if layer >= nl: t['model'] = 'EERR'; continue
+                e_scope = tries.get((t['sch'].base, '%s_layer%d' % (g, layer)))
+            else:
+                if layer >= 1: t['model'] = 'EERR'; continue
+                e_scope = tries.get((t['sch'].base, g))
+            t['_gscope'] = e_scope
+            q4.append(('scope', e_scope, model_input(t))); who4.append(t)
+        r4 = ask(q4)
+        q5, who5 = [], []
+        for t, r in zip(who4, r4):
+            if r.startswith('M '):
+                q5.append(follow(t, r, t['_gscope'])); who5.append(t)
+            else: nxt.append(t)
+        for t, r in zip(who5, ask(q5)):
+            if r.startswith('M '): t['model'] = 'E ' + r[2:]
+            else: nxt.append(t)
+        pending = nxt
+        layer += 1
 
 
 def judge(t):
@@ -645,6 +680,13 @@ def signature(t, prob):
     if t['klass'] == 'unquoted-hibyte-skip': return 'unquoted-name-followed-by-high-byte'
     if is_enum and '-neg' in t['klass'] and want[0] == 'OK' and impl[0] == 'ERR': return 'negative-enum-symbol-rejected'
     if is_enum and want[0] == 'ERR' and impl[0] == 'OK' and '.' in t['note']: return 'qualified-unknown-symbol-accepted'
+    if is_enum and want[0] == 'OK' and impl[0] == 'ERR':
+        # a member's qualified type name is the namespace of another enum, or lives in a namespace that is also an enum's name
+        qs = ['.'.join(d['ns'] + [d['name']]) for d in t['sch'].visible_enums(t['enum'][0])]
+        for part in t['note'].split():
+            if part.count('.') >= 2:
+                q = part.rsplit('.', 1)[0]
+                if any(o.startswith(q + '.') or q.startswith(o + '.') for o in qs): return 'enum-name-is-also-a-namespace'
     if want[0] == 'OK' and impl[0] == 'ERR' and t['mode'] in ('u0', 'u}'):
         # the translated trie itself (zero-extending window, the runtime's terminator test) already misroutes this input,
         # and only in the spelling where the terminator byte follows the name directly (quoted / space-terminated pass)
